@@ -27,7 +27,7 @@ import (
 //	1. A writes; B joins and catches up; B takes its first (full) snapshot.
 //	2. A writes; B receives it. B snapshots with the persist skipped (A joins an
 //	   unreachable non-voter first: the configuration entry is ahead of B's FSM) or with
-//	   the persist failing (fingerprint file blocked): B keeps one staged WAL.
+//	   the persist failing (sink refuses the header, see operation F): B keeps one staged WAL.
 //	3. the link is cut, A writes twice and snapshots leaving one trailing log, the link is
 //	   restored: B is behind A's first log index, raft installs A's snapshot on B (real
 //	   sink + real fsmRestore).
@@ -229,11 +229,7 @@ func c04FollowerRun(t *testing.T, retain byte, big bool) *c04Result {
 		say("B snapshot: %s", cb.snapErrClass(err))
 		c04Must(name, "remove ghost", a.Remove(context.Background(), removeNodeRequest("ghost")))
 	case 'F':
-		blk := b.cleanSnapshotPath + ".tmp"
-		c04Must(name, "block fingerprint", os.Mkdir(blk, 0755))
-		err := b.Snapshot(0)
-		os.Remove(blk)
-		say("B snapshot: %s", cb.snapErrClass(err))
+		say("B snapshot: %s", c04SnapshotPersistFails(name, b, cb.snapErrClass))
 	}
 	stagedAtInstall := cb.stagedWALs()
 	say("B staged WALs: %d", len(stagedAtInstall))
@@ -286,7 +282,7 @@ func c04FollowerRun(t *testing.T, retain byte, big bool) *c04Result {
 	cb.checkRestore()
 	if len(res.violations) == 0 {
 		// reap on B consolidates the installed snapshot (database + WAL) and B's incremental
-		n, w, err := b.Reap()
+		n, w, err := c04Reap(b.Reap)
 		say("B reap: %d snapshots, %d WALs, err=%v", n, w, err)
 		res.obs = strings.Join(steps, "; ")
 		if err != nil {
